@@ -7,7 +7,7 @@
    statement  forall bs, run c bs = run c [concat bs]  (any batching of the same
    row sequence, including empty batches, equals the single-batch run). *)
 From SigM Require Import Base Pipe.
-From SigP Require Import BaseProofs PipeProofs PipeRewindProofs.
+From SigP Require Import BaseProofs PipeProofs PipeRewindProofs PipeMergeProofs.
 From Coq Require Import Permutation.
 Open Scope N_scope.
 
@@ -471,3 +471,106 @@ Theorem C06_stats_without_by_prefix_extracted_twice_witness :
   /\ tp_sem fill0 (run (gstats_cmd [] fvv fcnt fsum) [[[(fvv, VNum 3)]]]) = [[(fcnt, VNum 1); (fsum, VNum 3)]].
 Proof. exact stats_noby_two_pass_refuted. Qed.
 Print Assumptions C06_stats_without_by_prefix_extracted_twice_witness.
+
+(* ---- a DataProcessor with SEVERAL input streams in a chain that is rewound (Pipe.v level D) ----
+   [merge_stream less limit ew srcs] = the merged input of a DataProcessor whose k CachedStreams
+   deliver the batch lists [srcs]: every getStreamInput call fetches from every stream that is not
+   exhausted, merges the fetched IQRs (iqr.MergeIQRs, order [less]) until one is used up, applies the
+   row limit, and gives the unused remainder of the other IQRs back to their CachedStreams
+   (unusedDataFromLastFetch), which return it first at the next Fetch.  A consumer that stops early
+   (head) leaves leftovers behind; its state at that moment is any state [u] of the stream. *)
+
+(* DataProcessor.Rewind (numReturned = 0; every CachedStream: wrapped stream from the beginning,
+   isExhausted = false, unusedDataFromLastFetch = nil) restores the state before the first Fetch,
+   whatever the number of streams, their batches, leftovers, exhausted flags and the row counter *)
+Theorem C06_merged_streams_rewind_restores_start : forall less limit ew srcs (u : sst (merge_stream less limit ew srcs)),
+  srewind (merge_stream less limit ew srcs) u = sinit (merge_stream less limit ew srcs).
+Proof. exact merge_rewind_is_init. Qed.
+Print Assumptions C06_merged_streams_rewind_restores_start.
+
+(* hence the pass after a Rewind at ANY moment is the first pass (Fetch by Fetch) *)
+Theorem C06_merged_streams_second_pass_is_first : forall less limit ew srcs (u : sst (merge_stream less limit ew srcs)),
+  strace (merge_stream less limit ew srcs) (srewind (merge_stream less limit ew srcs) u)
+  = strace (merge_stream less limit ew srcs) (sinit (merge_stream less limit ew srcs)).
+Proof. exact merge_second_pass_is_first. Qed.
+Print Assumptions C06_merged_streams_second_pass_is_first.
+
+Theorem C06_merged_streams_replayable : forall less limit ew srcs,
+  replayable (merge_stream less limit ew srcs) (merge_rows less limit ew srcs).
+Proof. exact merge_stream_replayable. Qed.
+Print Assumptions C06_merged_streams_replayable.
+
+(* what one pass reads: the k-way merge of the rows of the streams (always the first smallest next
+   record), cut at the limit - for every batching of every stream (empty batches included), both
+   EOF conventions, any number of streams and ANY comparison function *)
+Theorem C06_merge_is_kway_merge_for_any_batching : forall less ew limit srcs,
+  merge_rows less limit ew srcs
+  = match limit with
+    | None => kmerge_all less (map (@concat row) srcs)
+    | Some L => takeN L (kmerge_all less (map (@concat row) srcs))
+    end.
+Proof. exact merge_rows_kmerge. Qed.
+Print Assumptions C06_merge_is_kway_merge_for_any_batching.
+
+Theorem C06_merge_batching_invariant : forall less limit ew ew' srcs srcs',
+  map (@concat row) srcs = map (@concat row) srcs' ->
+  merge_rows less limit ew srcs = merge_rows less limit ew' srcs'.
+Proof. exact merge_rows_batching_invariant. Qed.
+Print Assumptions C06_merge_batching_invariant.
+
+(* non-vacuity of the specification merge: one stream is delivered unchanged *)
+Theorem C06_merge_of_one_stream_is_identity : forall less l, kmerge_all less [l] = l.
+Proof. exact kmerge_single. Qed.
+Print Assumptions C06_merge_of_one_stream_is_identity.
+
+(* "from one or several upstream streams, in one or two passes": a chain of DataProcessors (head, head
+   <expr>, dedup, streamstats, row-wise, tail, top/rare, stats, two-pass commands; any length) behind k
+   streams delivers what the same chain delivers behind ONE stream holding the merged order, for every
+   batching on either side; the two-pass commands may rewind the merge at any moment *)
+Theorem C06_merged_chain_equals_single_stream : forall less stages sems ew ew' srcs bs,
+  Forall2 good_stage stages sems ->
+  concat bs = kmerge_all less (map (@concat row) srcs) ->
+  stream_rows (build_chain (merge_stream less None ew srcs) stages)
+  = stream_rows (build_chain (src_stream ew' bs) stages).
+Proof. exact merged_chain_equals_single_stream. Qed.
+Print Assumptions C06_merged_chain_equals_single_stream.
+
+Theorem C06_merged_chain_with_limit : forall less stages sems ew L srcs,
+  Forall2 good_stage stages sems ->
+  stream_rows (build_chain (merge_stream less (Some L) ew srcs) stages)
+  = Some (sems_apply sems (takeN L (kmerge_all less (map (@concat row) srcs)))).
+Proof. exact merged_chain_with_limit. Qed.
+Print Assumptions C06_merged_chain_with_limit.
+
+(* the shape of the seeded defect: head stops the merge early, a two-pass command rewinds it *)
+Theorem C06_head_behind_merge_then_two_pass : forall less n t ew srcs,
+  stream_rows (build_chain (merge_stream less None ew srcs)
+                 [RStage (head_proc n) streaming_flags; RStage (twopass_proc t) twopass_flags])
+  = Some (tp_sem t (firstn (N.to_nat n) (kmerge_all less (map (@concat row) srcs)))).
+Proof. exact head_behind_merge_then_two_pass_meaning. Qed.
+Print Assumptions C06_head_behind_merge_then_two_pass.
+
+(* necessity: a CachedStream.Rewind that keeps unusedDataFromLastFetch ([merge_stream_gen .. true]).
+   Streams {1,2,6} and {3,4,5}, `head 4 | fillnull value=0`: the first pass leaves [6] with the first
+   stream; the second pass starts with it: 3,4,5,6 instead of 1,2,3,4 (the real Rewind and the single
+   stream give 1,2,3,4) *)
+Theorem C06_rewind_keeping_leftover_refuted :
+  stream_rows (build_chain (merge_stream_gen less_k None false true [[[rk 1; rk 2; rk 6]]; [[rk 3; rk 4; rk 5]]])
+                 [RStage (head_proc 4) streaming_flags; RStage (twopass_proc fill0) twopass_flags])
+  = Some [rk 3; rk 4; rk 5; rk 6]
+  /\ stream_rows (build_chain (merge_stream less_k None false [[[rk 1; rk 2; rk 6]]; [[rk 3; rk 4; rk 5]]])
+                 [RStage (head_proc 4) streaming_flags; RStage (twopass_proc fill0) twopass_flags])
+  = Some [rk 1; rk 2; rk 3; rk 4]
+  /\ stream_rows (build_chain (src_stream false [[rk 1; rk 2; rk 3; rk 4; rk 5; rk 6]])
+                 [RStage (head_proc 4) streaming_flags; RStage (twopass_proc fill0) twopass_flags])
+  = Some [rk 1; rk 2; rk 3; rk 4].
+Proof. exact rewind_keeping_leftover_refuted. Qed.
+Print Assumptions C06_rewind_keeping_leftover_refuted.
+
+(* without a consumer that stops early every leftover has been used when the pass ends and the
+   forgetful Rewind goes unnoticed (head 6 over the six rows) *)
+Example C06_rewind_keeping_leftover_unnoticed_when_drained :
+  stream_rows (build_chain (merge_stream_gen less_k None false true [[[rk 1; rk 2; rk 6]]; [[rk 3; rk 4; rk 5]]])
+                 [RStage (head_proc 6) streaming_flags; RStage (twopass_proc fill0) twopass_flags])
+  = Some [rk 1; rk 2; rk 3; rk 4; rk 5; rk 6].
+Proof. exact rewind_keeping_leftover_unnoticed_when_drained. Qed.
